@@ -164,7 +164,7 @@ def matrices(ctx, count, values, tag):
         dens = rng.choice([0.2, 0.5, 0.8, 1.0])
         diag = rng.choice(['all', 'all', 'mixed', 'none', 'zero'])
         rows = gen.random_pattern_rows(rng, n, dens, values, diag=diag, sym=rng.random() < 0.4,
-                                       zero_prob=0.05)
+                                       zero_prob=0.05, neg_diag_prob=0.2 if k % 3 == 0 else 0.0)
         out.append(gen.csr_from_rows(n, rows))
     return out
 
@@ -359,6 +359,41 @@ def contract_others(ctx):
                     if Sb.shape != Sn.shape or not np.array_equal(Sb, Sn):
                         ctx.fail('classical/%s/bsr/not-the-nodal-rule' % nrm,
                                  'block-wise strength differs from the scalar rule applied to the reduced nodal matrix', c)
+    # symmetric strength on BSR input (real and complex): the nodal rule with Frobenius norms of the blocks,
+    #   keep (I,J) iff |A_IJ|_F^2 >= theta^2 |A_II|_F |A_JJ|_F   (diagonal blocks always kept)
+    for bs in (2, 3):
+        for rep in range(3 if not ctx.thorough else 10):
+            nb = rng.choice([3, 4, 5])
+            n = nb * bs
+            D = gen.poisson_like(rng, n).astype(complex if rep % 2 else float)
+            if rep % 2:
+                D = D * np.exp(1j * np.array([[rng.uniform(0, 6) if i != j else 0.0 for j in range(n)] for i in range(n)]))
+                D = (D + D.conj().T) / 2
+            Ab = sp.bsr_array(D, blocksize=(bs, bs))
+            fro = np.sqrt((np.abs(D) ** 2).reshape(nb, bs, nb, bs).sum(axis=(1, 3)))
+            for th in (0.1, 0.25, 0.5):
+                c = dict(matrix=[[complex(v) for v in r] for r in D], blocksize=bs, measure='symmetric/bsr-frobenius', theta=th)
+                ctx.mark(c)
+                try:
+                    Sb = sp.csr_array(strength.symmetric_strength_of_connection(Ab, th)).toarray()
+                except Exception as e:   # noqa
+                    ctx.fail('symmetric/bsr/raises', repr(e), c)
+                    continue
+                ctx.case(('bsr-symmetric', bs, th, D.tobytes()), True)
+                ctx.count('contract:symmetric/bsr-frobenius')
+                want = np.zeros((nb, nb), dtype=bool)
+                margin = np.zeros((nb, nb))
+                for I_ in range(nb):
+                    for J_ in range(nb):
+                        if fro[I_, J_] == 0:
+                            continue
+                        lhs, rhs = fro[I_, J_] ** 2, th ** 2 * fro[I_, I_] * fro[J_, J_]
+                        want[I_, J_] = I_ == J_ or lhs >= rhs
+                        margin[I_, J_] = abs(lhs - rhs) / max(lhs, rhs, 1e-300)
+                got = Sb != 0
+                clear = (margin > 1e-9) | np.eye(nb, dtype=bool)          # (entries exactly at the threshold may go either way in floating point)
+                if Sb.shape != (nb, nb) or np.any((got != want) & clear & (fro != 0)):
+                    ctx.fail('symmetric/bsr/not-the-nodal-rule', 'kept block pattern differs from |A_IJ|_F^2 >= theta^2 |A_II|_F |A_JJ|_F', c)
     # complex Hermitian rotation: same patterns as the real matrix
     D = gen.poisson_like(rng, 6)
     u = np.exp(1j * np.array([rng.uniform(0, 6) for _ in range(6)]))
